@@ -116,7 +116,7 @@ def run_harness(ctx, scenarios, name, run_re="TestVerifReload", timeout=1500):
     if vlib.compile_failed(txt):
         raise vlib.Inconclusive("reload overlay harness does not compile against the working tree:\n" + txt[-3000:])
     if rc != 0 or not os.path.exists(out):
-        raise vlib.Inconclusive("reload harness failed (rc=%d):\n%s" % (rc, txt[-3000:]))
+        raise vlib.Inconclusive("reload harness failed (rc=%d):\n%s" % (rc, txt[-60000:]))
     release_ports()
     rows = vlib.read_ndjson(out)
     if not rows or rows[-1].get("ev") != "Done":
